@@ -47,7 +47,7 @@ def conclude(pid, tier, seed, obls, infos, undecided_reasons, wall, write_eviden
     viol, known, undec = [], [], list(undecided_reasons)
     # Verus / PolyVC give no counterexample: search for a failing input on the real code
     WITNESS_MODES = {"c10_jubjub_fr": "c10_jubjub_fr", "c11_jubjub": "c11_jubjub", "c11_bls": "c11_bls",
-                     "c10_curve25519_fp": "c10_c25519_fp", "c16_zkir_routing": "c16_zkir", "c12_chunks_v": "c12_chunks", "c06_foreign_preconditions": "c06_foreign", "c16_vk_read": "c16_vk"}
+                     "c10_curve25519_fp": "c10_c25519_fp", "c16_zkir_routing": "c16_zkir", "c12_chunks_v": "c12_chunks", "c06_foreign_preconditions": "c06_foreign", "c16_vk_read": "c16_vk", "c12_msm_parallel_v": "c12_msm"}
     for ob in obls:
         if ob.backend in ("verus", "polyvc") and getattr(ob, "unit_name", None) in WITNESS_MODES and not getattr(ob, "replay", None):
             resource = ob.status == UNDECIDED and re.search(r"rlimit|Resource limit|timed out|unregistered call site", ob.detail or "")
